@@ -14,6 +14,76 @@ mod unit {
 use super::*;
 broadcast use {axiom_ordering_eq, vstd::laws_eq::group_laws_eq};
 
+// ---- step lemmas of sift_down (one loop iteration, stated on the pre-state h of the iteration) ----
+// the loop invariant of sift_down at node kk: heap order from k on except between kk and its children, whose values are
+// dominated by kk's parent
+spec fn sift_inv<T: PartialOrd>(h: Seq<T>, dom: Set<T>, k: int, kk: int, n: int) -> bool {
+    &&& total_on(dom) && all_in(h, dom)
+    &&& 0 <= k <= kk <= n < h.len()
+    &&& forall|c: int| 1 <= c <= n && k <= par(c) && par(c) != kk ==> ge(h[par(c)], #[trigger] h[c])
+    &&& forall|c: int| 1 <= c <= n && par(c) == kk && kk > k ==> ge(h[par(kk)], #[trigger] h[c])
+}
+// j is the child of kk the code goes for: 2kk+1 if it exists and is strictly larger than 2kk, else 2kk
+spec fn sift_child<T: PartialOrd>(h: Seq<T>, kk: int, n: int, j: int) -> bool {
+    &&& 2 * kk <= n
+    &&& if 2 * kk < n && lt(h[2 * kk], h[2 * kk + 1]) { j == 2 * kk + 1 } else { j == 2 * kk }
+}
+// stop: kk dominates its larger child j, hence both children: heap order from k on
+proof fn lemma_sift_stop<T: PartialOrd>(h: Seq<T>, dom: Set<T>, k: int, kk: int, n: int, j: int)
+    requires
+        sift_inv(h, dom, k, kk, n),
+        sift_child(h, kk, n, j),
+        ge(h[kk], h[j]),
+    ensures
+        heap_from(h, k, n),
+{
+    if 2 * kk + 1 <= n { lemma_total_not_lt(dom, h[2 * kk], h[2 * kk + 1]); }
+    assert forall|c: int| 1 <= c <= n && par(c) == kk implies ge(h[kk], #[trigger] h[c]) by {
+        assert(c == 2 * kk || c == 2 * kk + 1);
+        if c != j {
+            lemma_total_not_lt(dom, h[j], h[c]);
+            lemma_total_ge_trans(dom, h[kk], h[j], h[c]);
+        }
+    }
+}
+// go on: kk does not dominate its larger child j: j is a proper child of kk, and after exchanging them the invariant holds at j
+proof fn lemma_sift_swap<T: PartialOrd>(h: Seq<T>, dom: Set<T>, k: int, kk: int, n: int, j: int)
+    requires
+        sift_inv(h, dom, k, kk, n),
+        sift_child(h, kk, n, j),
+        !ge(h[kk], h[j]),
+    ensures
+        kk < j <= n, par(j) == kk,
+        sift_inv(h.update(kk, h[j]).update(j, h[kk]), dom, k, j, n),
+        h.update(kk, h[j]).update(j, h[kk]).to_multiset() == h.to_multiset(),
+{
+    if 2 * kk + 1 <= n { lemma_total_not_lt(dom, h[2 * kk], h[2 * kk + 1]); }
+    // not (kk >= j)  ==>  kk < j strictly; in particular j != kk (reflexivity), which is what makes the loop terminate
+    lemma_total_not_lt(dom, h[kk], h[j]);
+    lemma_total_not_lt(dom, h[j], h[kk]);
+    assert(j != kk);
+    assert(par(j) == kk);
+    let h2 = h.update(kk, h[j]).update(j, h[kk]);
+    lemma_swap_multiset(h, kk, j);
+    assert forall|c: int| 1 <= c <= n && k <= par(c) && par(c) != j implies ge(h2[par(c)], #[trigger] h2[c]) by {
+        if par(c) == kk {
+            assert(c == 2 * kk || c == 2 * kk + 1);
+            if c != j {
+                lemma_total_not_lt(dom, h[j], h[c]);
+            }
+        } else if c == kk {
+            assert(kk > k);
+            assert(ge(h[par(kk)], h[j]));
+        } else {
+            assert(ge(h[par(c)], h[c]));
+        }
+    }
+    assert forall|c: int| 1 <= c <= n && par(c) == j && j > k implies ge(h2[par(j)], #[trigger] h2[c]) by {
+        assert(ge(h[par(c)], h[c]));
+    }
+    assert(all_in(h2, dom));
+}
+
 //@struct src/algorithm/sort/heap_select.rs :: HeapSelection
 
 impl<T: PartialOrd + Debug> HeapSelection<T> {
@@ -83,49 +153,20 @@ impl<T: PartialOrd + Debug> HeapSelection<T> {
             ensures
                 heap_from(self.heap@, k as int, n as int),
             decreases n - kk
-//@before break;
-                proof {
-                    let h = self.heap@;
-                    if 2 * kk + 1 <= n { lemma_total_not_lt(dom, h[2 * kk], h[2 * kk + 1]); }
-                    // kk dominates its larger child j, hence both children
-                    assert forall|c: int| 1 <= c <= n && par(c) == kk implies ge(h[kk as int], #[trigger] h[c]) by {
-                        assert(c == 2 * kk || c == 2 * kk + 1);
-                        if c != j {
-                            lemma_total_not_lt(dom, h[j as int], h[c]);
-                            lemma_total_ge_trans(dom, h[kk as int], h[j as int], h[c]);
-                        }
-                    }
-                }
-//@before self.heap.swap(kk, j);
+//@loopbody 1
             let ghost h = self.heap@;
+            let ghost kk0 = kk as int;
             proof {
-                if 2 * kk + 1 <= n { lemma_total_not_lt(dom, h[2 * kk], h[2 * kk + 1]); }
-                // not (kk >= j)  ==>  kk < j strictly; in particular j != kk (reflexivity), which is what makes the loop terminate
-                lemma_total_not_lt(dom, h[kk as int], h[j as int]);
-                lemma_total_not_lt(dom, h[j as int], h[kk as int]);
-                assert(j != kk);
-                assert(par(j as int) == kk);
+                assert(sift_inv(h, dom, k as int, kk0, n as int));
+                // leaving the loop: whichever child the code picks (the larger one), if kk dominates it the heap order holds from k on
+                if sift_child(h, kk0, n as int, 2 * kk0) && ge(h[kk0], h[2 * kk0]) { lemma_sift_stop(h, dom, k as int, kk0, n as int, 2 * kk0); }
+                if sift_child(h, kk0, n as int, 2 * kk0 + 1) && ge(h[kk0], h[2 * kk0 + 1]) { lemma_sift_stop(h, dom, k as int, kk0, n as int, 2 * kk0 + 1); }
             }
-//@after self.heap.swap(kk, j);
+//@loopend 1
+            // going on: kk0 was exchanged with its larger child, which is now kk
             proof {
-                let h2 = self.heap@;
-                assert(h2 == h.update(kk as int, h[j as int]).update(j as int, h[kk as int]));
-                lemma_swap_multiset(h, kk as int, j as int);
-                assert forall|c: int| 1 <= c <= n && k <= par(c) && par(c) != j implies ge(h2[par(c)], #[trigger] h2[c]) by {
-                    if par(c) == kk {
-                        assert(c == 2 * kk || c == 2 * kk + 1);
-                        if c != j {
-                            lemma_total_not_lt(dom, h[j as int], h[c]);
-                        }
-                    } else if c == kk {
-                        assert(kk > k);
-                        assert(ge(h[par(kk as int)], h[j as int]));
-                    } else {
-                        assert(ge(h[par(c)], h[c]));
-                    }
-                }
-                assert forall|c: int| 1 <= c <= n && par(c) == j && j > k implies ge(h2[par(j as int)], #[trigger] h2[c]) by {
-                    assert(ge(h[par(c)], h[c]));
+                if sift_child(h, kk0, n as int, kk as int) && !ge(h[kk0], h[kk as int]) {
+                    lemma_sift_swap(h, dom, k as int, kk0, n as int, kk as int);
                 }
             }
 //@end
@@ -154,7 +195,7 @@ impl<T: PartialOrd + Debug> HeapSelection<T> {
                 heap_from(self.heap@, n as int / 2 - VERUS_ghost_iter.index@, n - 1),
                 self.heap@.to_multiset() == old(self).heap@.to_multiset(),
                 self.k == old(self).k, self.n == old(self).n, self.sorted == old(self).sorted,
-//@before self.sift_down(
+//@loopbody 1
             proof { lemma_same_multiset_same_set(old(self).heap@, self.heap@); }
 //@end
 
@@ -178,35 +219,41 @@ impl<T: PartialOrd + Debug> HeapSelection<T> {
         let ghost h0 = self.heap@;
         let ghost dom = h0.to_set().insert(element);
         proof { axiom_ordering_obeys(); h0.to_multiset_ensures(); }
-//@before self.sort(
-                proof {
-                    assert(self.heap@ == h0.push(element));
-                    assert(self.heap@.to_set().subset_of(dom)) by {
-                        assert forall|x: T| self.heap@.contains(x) implies dom.contains(x) by {
-                            let i = choose|i: int| 0 <= i < self.heap@.len() && self.heap@[i] == x;
-                            if i < h0.len() { assert(h0.contains(h0[i])); }
-                        }
+        proof {
+            if self.n < self.k {
+                // first branch: the vector becomes h0.push(element); its values lie in dom, so sort() may be called
+                let h1 = h0.push(element);
+                assert(h1.to_set().subset_of(dom)) by {
+                    assert forall|x: T| h1.contains(x) implies dom.contains(x) by {
+                        let i = choose|i: int| 0 <= i < h1.len() && h1[i] == x;
+                        if i < h0.len() { assert(h0.contains(h0[i])); }
                     }
-                    lemma_total_on_subset(dom, self.heap@.to_set());
                 }
-//@after self.sort(
-                proof { lemma_sorted_desc_is_heap(self.heap@); }
-//@before self.sift_down(
-                proof {
-                    assert(self.heap@ == h0.update(0, element));
-                    lemma_update_multiset(h0, 0, element);
-                    assert(self.heap@.to_set().subset_of(dom)) by {
-                        assert forall|x: T| self.heap@.contains(x) implies dom.contains(x) by {
-                            let i = choose|i: int| 0 <= i < self.heap@.len() && self.heap@[i] == x;
-                            if i != 0 { assert(h0.contains(h0[i])); }
-                        }
+                lemma_total_on_subset(dom, h1.to_set());
+            } else {
+                // second branch: the root is overwritten (h0.update(0, element)) and sifted down
+                let h1 = h0.update(0, element);
+                lemma_update_multiset(h0, 0, element);
+                assert(h1.to_set().subset_of(dom)) by {
+                    assert forall|x: T| h1.contains(x) implies dom.contains(x) by {
+                        let i = choose|i: int| 0 <= i < h1.len() && h1[i] == x;
+                        if i != 0 { assert(h0.contains(h0[i])); }
                     }
-                    lemma_total_on_subset(dom, self.heap@.to_set());
-                    // only the root changed: the order below it is the old one
-                    assert forall|c: int| 1 <= c <= self.k - 1 && 1 <= par(c) implies ge(self.heap@[par(c)], #[trigger] self.heap@[c]) by {
+                }
+                lemma_total_on_subset(dom, h1.to_set());
+                // only the root changed: the order below it is the old one
+                assert(heap_from(h1, 1, self.k - 1)) by {
+                    assert forall|c: int| 1 <= c <= self.k - 1 && 1 <= par(c) implies ge(h1[par(c)], #[trigger] h1[c]) by {
                         assert(ge(h0[par(c)], h0[c]));
                     }
                 }
+            }
+        }
+//@exit
+        proof {
+            // the vector just became full and was sorted in descending order: that is a heap
+            if forall|i: int, j: int| 0 <= i <= j < self.heap@.len() ==> ge(self.heap@[i], self.heap@[j]) { lemma_sorted_desc_is_heap(self.heap@); }
+        }
 //@end
 
 //@extract src/algorithm/sort/heap_select.rs :: impl<T: PartialOrd + Debug> HeapSelection<T> :: peek_mut :: ret=r
